@@ -296,3 +296,29 @@ EXTRA = _RTR + [
      r'impl iter::FromIterator<Asn> for SmallAsnSet \{\s*fn from_iter<T: IntoIterator<Item = Asn>>\(iter: T\) -> Self \{([\s\S]*?)\n    \}',
      lambda m: bool(re.search(r'res\.0\.sort(_unstable)?\(\);\s*res\.0\.dedup\(\);', m.group(1))), ['C13']),
 ]
+
+
+# ---- OIDs of the certificate / CMS profiles (src/oid.rs), used by the byte-level decoder models
+OIDF = 'src/oid.rs'
+_OIDS = [
+    ('oidRsaEncryption', 'RSA_ENCRYPTION'), ('oidSha256WithRsa', 'SHA256_WITH_RSA_ENCRYPTION'),
+    ('oidEcPublicKey', 'EC_PUBLIC_KEY'), ('oidSecp256r1', 'SECP256R1'), ('oidEcdsaWithSha256', 'ECDSA_WITH_SHA256'),
+    ('oidSignedData', 'SIGNED_DATA'), ('oidContentTypeAttr', 'CONTENT_TYPE'), ('oidProtocolContentType', 'PROTOCOL_CONTENT_TYPE'),
+    ('oidMessageDigestAttr', 'MESSAGE_DIGEST'), ('oidSigningTimeAttr', 'SIGNING_TIME'),
+    ('oidBinarySigningTimeAttr', 'AA_BINARY_SIGNING_TIME'), ('oidSha256', 'SHA256'),
+    ('oidAdCaIssuers', 'AD_CA_ISSUERS'), ('oidAdCaRepository', 'AD_CA_REPOSITORY'), ('oidAdRpkiManifest', 'AD_RPKI_MANIFEST'),
+    ('oidAdRpkiNotify', 'AD_RPKI_NOTIFY'), ('oidAdSignedObject', 'AD_SIGNED_OBJECT'),
+    ('oidCommonName', 'AT_COMMON_NAME'), ('oidSerialNumber', 'AT_SERIAL_NUMBER'),
+    ('oidAuthorityKeyId', 'CE_AUTHORITY_KEY_IDENTIFIER'), ('oidBasicConstraints', 'CE_BASIC_CONSTRAINTS'),
+    ('oidCertificatePolicies', 'CE_CERTIFICATE_POLICIES'), ('oidCrlDistributionPoints', 'CE_CRL_DISTRIBUTION_POINTS'),
+    ('oidCrlNumber', 'CE_CRL_NUMBER'), ('oidExtKeyUsage', 'CE_EXTENDED_KEY_USAGE'), ('oidKeyUsage', 'CE_KEY_USAGE'),
+    ('oidSubjectKeyId', 'CE_SUBJECT_KEY_IDENTIFIER'),
+    ('oidCpResources', 'CP_IPADDR_ASNUMBER'), ('oidCpResourcesV2', 'CP_IPADDR_ASNUMBER_V2'),
+    ('oidKpBgpsecRouter', 'KP_BGPSEC_ROUTER'),
+    ('oidAuthorityInfoAccess', 'PE_AUTHORITY_INFO_ACCESS'), ('oidIpAddrBlock', 'PE_IP_ADDR_BLOCK'),
+    ('oidIpAddrBlockV2', 'PE_IP_ADDR_BLOCK_V2'), ('oidAsIds', 'PE_AUTONOMOUS_SYS_IDS'), ('oidAsIdsV2', 'PE_AUTONOMOUS_SYS_IDS_V2'),
+    ('oidSubjectInfoAccess', 'PE_SUBJECT_INFO_ACCESS'),
+    ('oidCtManifest', 'CT_RPKI_MANIFEST'), ('oidCtAspa', 'CT_ASPA'), ('oidCtRoa', 'ROUTE_ORIGIN_AUTHZ'),
+]
+EXTRA += [(lean, OIDF, r'pub const ' + rust + r':\s*[A-Za-z<>&\[\]0-9 ]+\s*=\s*Oid\(&\[([0-9,\s]*)\]\);', 'natlist',
+           ['C01', 'C02', 'C04', 'C05', 'C10']) for lean, rust in _OIDS]
